@@ -282,12 +282,12 @@ def trace_direction(ctx, names):
 
 def run(ctx):
     res = tlc.run("FixedDict", "mc/FixedDict.cfg", dump=True)
-    ctx.add_tlc(res, "exhaustive", {"Declared": 2, "Undeclared": 2, "Vals": 2, "MaxLen": 3, "MaxArg": 2})
+    ctx.add_tlc(res, "exhaustive", {"Declared": 2, "Undeclared": 2, "Vals": 2, "MaxLen": 30, "MaxArg": 2})
     hists = _hists(res.dump_path)
     get_type("harness.Probe")
     names = sorted(_TYPES)
     if not ctx.quick:
-        sim = tlc.run("FixedDict", open(tlc.SPEC + "/mc/FixedDict.cfg").read().replace("MaxLen = 3", "MaxLen = 12"), simulate=4000, depth=12, seed=ctx.seed, workers=1, dump=False)
+        sim = tlc.run("FixedDict", open(tlc.SPEC + "/mc/FixedDict.cfg").read().replace("MaxLen = 30", "MaxLen = 12"), simulate=4000, depth=12, seed=ctx.seed, workers=1, dump=False)
         import glob, os
 
         for p in sorted(glob.glob(os.path.join(sim.sim_dir, "tr*"))):
